@@ -486,4 +486,14 @@ def grid_quality(repo: Repo) -> RuleRun:
 
 grid_quality.rule_id = "C13.GRID-QUALITY"
 
-RULES = [rollback, probe_restore, who_writes_points, backport_rule, warning_filter, affine_kinds, link_relation, owns_geometry, angle_dimension, float_stores, backport_table, mirror_matrix, grid_quality]
+def symmetry_exact(repo: Repo) -> RuleRun:
+    """'linked vertices follow their leader exactly': the symmetry link, leader on either side of the plane. Same rule as C17.SYMMETRY-EXACT."""
+    from ..report import rebrand
+    from . import c17
+
+    return rebrand(c17.symmetry_exact(repo), PROP, "C13.SYMMETRY-EXACT")
+
+
+symmetry_exact.rule_id = "C13.SYMMETRY-EXACT"
+
+RULES = [rollback, probe_restore, who_writes_points, backport_rule, warning_filter, affine_kinds, link_relation, owns_geometry, angle_dimension, float_stores, backport_table, mirror_matrix, grid_quality, symmetry_exact]
